@@ -5,7 +5,7 @@
 From Coq Require Import ZArith List Bool String.
 From Coq Require Extraction.
 From Coq Require Import ExtrOcamlBasic ExtrOcamlString.
-From HV Require Import Gen.GenBranch Model.BranchPoints.
+From HV Require Import Gen.GenBranch Gen.GenAssertBranch Model.BranchPoints.
 Import ListNotations.
 Open Scope Z_scope.
 
@@ -52,7 +52,17 @@ Definition bp_jump (inp : list Z) : list Z :=
   | Some alts => Z.of_nat (List.length alts) :: flat_map (fun tc : Z * cnd Z => fst tc :: bits nv (snd tc)) alts
   end.
 
+(* [nv; cond table (0/1)...; pathmask...; unk] -> [n; (fails; bits...)...] *)
+Definition bp_assert (inp : list Z) : list Z :=
+  let '(nv, l) := pop1 inp in
+  let '(c, l) := popn nv l in
+  let '(mask, l) := popn nv l in
+  let '(unk, _) := pop1 l in
+  let alts := assert_alternatives Z (oracle nv mask unk) (fun v => negb (table_fn c v =? 0)) in
+  Z.of_nat (List.length alts) ::
+  flat_map (fun fc : bool * cnd Z => (if fst fc then 1 else 0) :: bits nv (snd fc)) alts.
+
 Definition table : list (string * (list Z -> list Z)) :=
-  [ ("bp_alias"%string, bp_alias); ("bp_funds"%string, bp_funds); ("bp_jump"%string, bp_jump) ].
+  [ ("bp_alias"%string, bp_alias); ("bp_funds"%string, bp_funds); ("bp_jump"%string, bp_jump); ("bp_assert"%string, bp_assert) ].
 
 Extraction "_build/BP/entries.ml" table.
